@@ -26,6 +26,7 @@ Routines and classes for creating priors and timeslices for use in tsdate
 
 import logging
 import os
+import tempfile
 from collections import defaultdict, namedtuple
 
 import numpy as np
@@ -144,10 +145,18 @@ class ConditionalCoalescentTimes:
         if precalc_approximation_n:
             # Create lookup table based on a large n that can be used for n > ~50
             filename = self.get_precalc_cache(precalc_approximation_n)
+            self.approx_priors = None
             if os.path.isfile(filename):
                 # Have already calculated and stored this
-                self.approx_priors = np.genfromtxt(filename)
-            else:
+                try:
+                    cached = np.atleast_2d(np.genfromtxt(filename))
+                except ValueError:
+                    cached = None
+                # Only trust a complete table (e.g. not one left by an older version
+                # that was interrupted while writing): otherwise recalculate it
+                if cached is not None and cached.shape == (precalc_approximation_n, 2):
+                    self.approx_priors = cached
+            if self.approx_priors is None:
                 # Calc and store
                 self.approx_priors = self.precalculate_priors_for_approximation(
                     precalc_approximation_n,
@@ -264,7 +273,20 @@ class ConditionalCoalescentTimes:
         all_tips = np.arange(2, n + 1)
         prior_lookup_table[1:, 0] = all_tips / n
         prior_lookup_table[1:, 1] = conditional_coalescent_variance(n + 1)[all_tips]
-        np.savetxt(self.get_precalc_cache(n), prior_lookup_table)
+        # Write to a unique temporary file and atomically move it into place, so that
+        # an interrupted or concurrent write never leaves a partial table in the cache
+        filename = self.get_precalc_cache(n)
+        fd, tmp_filename = tempfile.mkstemp(
+            dir=os.path.dirname(filename), prefix=os.path.basename(filename), suffix=".tmp"
+        )
+        try:
+            with os.fdopen(fd, "w") as tmp_file:
+                np.savetxt(tmp_file, prior_lookup_table)
+            os.replace(tmp_filename, filename)
+        except BaseException:
+            if os.path.exists(tmp_filename):
+                os.remove(tmp_filename)
+            raise
         return prior_lookup_table
 
     def clear_precalculated_priors(self):
